@@ -35,19 +35,45 @@ func (c *ctx) sourceCopy() {
 			c.s.Unk("G15", recv+".GenerateFile|source bytes", c.pos(fd), "os.ReadFile of the source not found")
 			continue
 		}
-		// slices of bs
+		// slices of bs handed to calls, in textual order with package-local helpers entered in place (a helper
+		// that receives the source buffer and the running offset continues the same walk)
 		type sl struct {
 			e      *ast.SliceExpr
+			ic     *astx.InlinedCall
 			inLoop bool
 		}
 		var sls []sl
 		var loop *ast.RangeStmt
-		ast.Inspect(fd.Body, func(n ast.Node) bool {
-			if se, ok := n.(*ast.SliceExpr); ok && astx.IdentObj(info, se.X) == bs {
-				l, _ := fc.par.InLoop(se).(*ast.RangeStmt)
-				sls = append(sls, sl{se, l != nil})
+		inlined := astx.CallsInlined(info, fc.pkg.Syntax, fd, 3)
+		for _, ic := range inlined {
+			for _, a := range ic.Call.Args {
+				se, ok := astx.Unparen(a).(*ast.SliceExpr)
+				if !ok || astx.IdentObj(info, ic.Resolve(se.X)) != bs {
+					continue
+				}
+				sfc := c.fileOf(se)
+				if sfc == nil {
+					continue
+				}
+				l, _ := sfc.par.InLoop(se).(*ast.RangeStmt)
+				sls = append(sls, sl{se, ic, l != nil})
 				if l != nil {
 					loop = l
+				}
+			}
+		}
+		// slices of the buffer that are not call arguments escape this accounting
+		stray := 0
+		ast.Inspect(fd.Body, func(n ast.Node) bool {
+			if se, ok := n.(*ast.SliceExpr); ok && astx.IdentObj(info, se.X) == bs {
+				found := false
+				for _, x := range sls {
+					if x.e == se {
+						found = true
+					}
+				}
+				if !found {
+					stray++
 				}
 			}
 			return true
@@ -63,17 +89,27 @@ func (c *ctx) sourceCopy() {
 			}
 			return strings.HasSuffix(astx.Short(call.Args[0]), what)
 		}
-		good := len(sls) == 3
-		msg := fmt.Sprintf("%d slices of the source buffer (want 3: header, between directives, tail)", len(sls))
+		root := func(x sl, e ast.Expr) types.Object {
+			if e == nil {
+				return nil
+			}
+			return astx.IdentObj(info, x.ic.Resolve(e))
+		}
+		good := len(sls) == 3 && stray == 0
+		msg := fmt.Sprintf("%d slices of the source buffer (want 3: header, between directives, tail)", len(sls)+stray)
 		if good {
-			hdr, mid, tail := sls[0].e, sls[1].e, sls[2].e
-			lastOff = astx.IdentObj(info, hdr.High)
-			good = hdr.Low == nil && lastOff != nil && !sls[0].inLoop &&
-				sls[1].inLoop && astx.IdentObj(info, mid.Low) == lastOff && isOffsetOf(mid.High, ".Pos()") &&
-				!sls[2].inLoop && astx.IdentObj(info, tail.Low) == lastOff && tail.High == nil && tail.Pos() > loop.End()
+			hdr, mid, tail := sls[0], sls[1], sls[2]
+			lastOff = root(hdr, hdr.e.High)
+			good = hdr.e.Low == nil && lastOff != nil && !hdr.inLoop &&
+				mid.inLoop && root(mid, mid.e.Low) == lastOff && isOffsetOf(mid.e.High, ".Pos()") &&
+				!tail.inLoop && root(tail, tail.e.Low) == lastOff && tail.e.High == nil && loop != nil &&
+				(c.fileOf(tail.e) != c.fileOf(loop) || tail.e.Pos() > loop.End() || tail.e.End() < loop.Pos())
+			if good && tail.e.Pos() < loop.End() && tail.e.Pos() > loop.Pos() {
+				good = false
+			}
 			msg = "the source is not copied as bs[:pkgOffset] (through the tag inverter), bs[last:Offset(directive.Pos())] per directive, bs[last:] at the end"
 			// header goes through writeInvertedCffTag
-			if call, ok := fc.par[hdr].(*ast.CallExpr); !ok || astx.Callee(info, call) == nil || astx.Callee(info, call).Name() != "writeInvertedCffTag" {
+			if fn := astx.Callee(info, hdr.ic.Call); fn == nil || fn.Name() != "writeInvertedCffTag" {
 				good = false
 				msg = "the bytes before the package clause are not passed through writeInvertedCffTag"
 			}
@@ -82,34 +118,50 @@ func (c *ctx) sourceCopy() {
 			// the text between directives and the tail are written verbatim: handed straight to a Write
 			// (or to a helper that does nothing but Write its argument once)
 			for _, x := range sls[1:] {
-				call, ok := fc.par[x.e].(*ast.CallExpr)
-				if !ok || !c.verbatimWrite(fc, call, x.e, 0) {
+				if !c.verbatimWrite(c.fileOf(x.e), x.ic.Call, x.e, 0) {
 					good = false
 					msg = "source text between/after directive calls is not written verbatim (it passes through something other than a plain Write)"
 				}
 			}
 		}
 		if good {
-			// writes to lastOff: init = Offset(f.AST.Package); in loop = Offset(x.End()) after the mid slice
+			// the running offset: the variable itself and the helper parameters it is handed to
+			eq := map[types.Object]bool{lastOff: true}
+			bodies := map[*ast.FuncDecl]bool{fd: true}
+			for _, ic := range inlined {
+				bodies[ic.Fd] = true
+				for po, arg := range ic.Bindings() {
+					if astx.IdentObj(info, arg) == lastOff {
+						eq[po] = true
+					}
+				}
+			}
+			// writes: init = Offset(f.AST.Package); in the loop = Offset(x.End()) after the mid slice, once
 			nInit, nLoop := 0, 0
-			astx.Writes(fd.Body, func(l ast.Expr, at ast.Node) {
-				if astx.IdentObj(info, l) != lastOff {
-					return
+			for body := range bodies {
+				bfc := c.fileOf(body)
+				if bfc == nil {
+					continue
 				}
-				as, ok := at.(*ast.AssignStmt)
-				if !ok || len(as.Rhs) != 1 {
-					good = false
-					return
-				}
-				switch {
-				case as.Tok == token.DEFINE && isOffsetOf(as.Rhs[0], ".Package"):
-					nInit++
-				case loop != nil && fc.par.Within(as, loop) && isOffsetOf(as.Rhs[0], ".End()") && as.Pos() > sls[1].e.End() && fc.par[as] == ast.Node(loop.Body):
-					nLoop++
-				default:
-					good = false
-				}
-			})
+				astx.Writes(body.Body, func(l ast.Expr, at ast.Node) {
+					if o := astx.IdentObj(info, l); o == nil || !eq[o] {
+						return
+					}
+					as, ok := at.(*ast.AssignStmt)
+					if !ok || len(as.Rhs) != 1 {
+						good = false
+						return
+					}
+					switch {
+					case as.Tok == token.DEFINE && isOffsetOf(as.Rhs[0], ".Package"):
+						nInit++
+					case loop != nil && bfc.par.Within(as, loop) && isOffsetOf(as.Rhs[0], ".End()") && as.Pos() > sls[1].e.End() && bfc.par[as] == ast.Node(loop.Body):
+						nLoop++
+					default:
+						good = false
+					}
+				})
+			}
 			if nInit != 1 || nLoop != 1 {
 				good = false
 			}
